@@ -356,6 +356,30 @@ func (s *Store[H]) DeleteRange(ctx context.Context, from, to uint64) error {
 		)
 	}
 
+	if updateHead && !updateTail {
+		// persist the new head before deleting anything: if the process dies in the middle of
+		// the deletion, the store must not come back with its head above already deleted headers
+		newHead, err := s.getByHeight(ctx, from-1)
+		if err != nil {
+			return fmt.Errorf("header/store: getting new head %d: %w", from-1, err)
+		}
+		// together, atomically, with the current tail, which may have receded below the
+		// persisted one since the last flush
+		batch, err := s.ds.Batch(ctx)
+		if err != nil {
+			return fmt.Errorf("header/store: persisting new head %d: %w", from-1, err)
+		}
+		if err := writeHeaderHashTo(ctx, batch, tail, tailKey); err != nil {
+			return fmt.Errorf("header/store: persisting tail %d: %w", tail.Height(), err)
+		}
+		if err := writeHeaderHashTo(ctx, batch, newHead, headKey); err != nil {
+			return fmt.Errorf("header/store: persisting new head %d: %w", from-1, err)
+		}
+		if err := batch.Commit(ctx); err != nil {
+			return fmt.Errorf("header/store: persisting new head %d: %w", from-1, err)
+		}
+	}
+
 	// Delete the headers without automatic tail updates
 	actualTo, _, deleteErr := s.deleteRangeRaw(ctx, from, to)
 
@@ -385,6 +409,12 @@ func (s *Store[H]) DeleteRange(ctx context.Context, from, to uint64) error {
 					fmt.Errorf("header/store: setting head to %d: %w", newHeadHeight, err),
 				)
 			}
+		} else if err := writeHeaderHashTo(ctx, s.ds, head, headKey); err != nil {
+			// nothing was deleted, so the head stays: take back the persisted pointer
+			return errors.Join(
+				deleteErr,
+				fmt.Errorf("header/store: restoring head pointer %d: %w", head.Height(), err),
+			)
 		}
 	}
 
